@@ -1,7 +1,7 @@
 (** C13 - Client and server always agree on pixel format and encodings. *)
 From Coq Require Import ZArith List Bool Lia.
 From VD Require Import Base.Bytes Base.PixFmt Base.Text Gen.Tables Model.Engine Model.ClientMsgs Model.Rfb Model.Image.
-From VD Require Import Gen.Exprs Proofs.ExprTie.
+From VD Require Import Gen.ExprsEncodings Proofs.TieEncodings.
 From VD Require Import Proofs.FormatP.
 Import ListNotations.
 Open Scope Z_scope.
